@@ -176,7 +176,10 @@ func judgeC12(c ReqCase) *Fail {
 	if !out.OK {
 		return failf("aspect-accepted", "valid aspect-elimination request rejected: %s", out.Err)
 	}
-	w := numMap(v.MP["weights"])
+	w, _, wok := finalWeights(v, r, snap.critIds())
+	if !wok {
+		return failf("params-reconstruct", "cannot reconstruct the weight of every final criterion %v from request and reports", snap.critIds())
+	}
 	mg := newMargin()
 	levels, generated, endless := refLevels(v.MP, true, snap, mg)
 	if endless {
@@ -270,15 +273,38 @@ func genC12(t *rapid.T) ReqCase {
 	if g.Chance(1, 2) {
 		o.ValueMode = vmDyadic
 	}
-	o.Biases = []string{"fatigue", "preferenceReversal"}
-	if g.Chance(1, 6) {
-		o.MaxBiases = 1
+	if g.Chance(1, 3) {
+		o.MaxBiases = 2
 	}
 	if g.Chance(1, 2) {
 		o.FixedOrder = true
 		o.MaxAlts = 7
 	}
-	return mkReqCase(genRequest(t, o))
+	return mkReqCase(genHeuristicReq(t, o))
+}
+
+// genHeuristicReq: with an explicit threshold list a criterion-adding bias extends the list with seeded
+// random thresholds (only visible in the reports); such cases are generated again without adding biases.
+func genHeuristicReq(t *rapid.T, o GenOpts) GenReq {
+	gr := genRequest(t, o)
+	if str(asM(gr.Req["methodParameters"])["function"]) != "thresholds" {
+		return gr
+	}
+	adds := false
+	for _, b := range asL(gr.Req["biases"]) {
+		bm := b.(M)
+		switch str(bm["name"]) {
+		case "criteriaConcealment", "criteriaMixing":
+			adds = true
+		case "anchoring":
+			adds = adds || str(asM(asM(bm["props"])["applier"])["function"]) == "newCriterion"
+		}
+	}
+	if !adds {
+		return gr
+	}
+	o.Biases = []string{"criteriaOmission", "preferenceReversal", "fatigue"}
+	return genRequest(t, o)
 }
 
 // ---------------------------------------------------------------- C13
@@ -466,15 +492,14 @@ func genC13(t *rapid.T) ReqCase {
 	if g.Chance(1, 2) {
 		o.ValueMode = vmDyadic
 	}
-	o.Biases = []string{"fatigue", "preferenceReversal"}
-	if g.Chance(1, 6) {
-		o.MaxBiases = 1
+	if g.Chance(1, 3) {
+		o.MaxBiases = 2
 	}
 	if g.Chance(1, 2) {
 		o.FixedOrder = true
 		o.MaxAlts = 7
 	}
-	return mkReqCase(genRequest(t, o))
+	return mkReqCase(genHeuristicReq(t, o))
 }
 
 func init() {
